@@ -10,7 +10,8 @@ PROP = {'tables': ['C15'], 'n_quick': 110,
          'map counts 0..3, blinded / explicit outputs, unknown and foreign proprietary pairs, n random subsets; the PSET hex literals of src/pset/mod.rs and the '
          "repository's transactions through from_tx; 2n pair-level variants of valid encodings (pair re-ordering, duplicated key, dropped mandatory pair, wrong "
          'count, missing / extra map, corrupted preimage, trailing bytes after a count VarInt, explicit Default sighash byte, key/value edits), n/2 byte-level '
-         'mutations and truncations, valid encodings followed by 1..4 trailing bytes through both entry points, base64 text (valid and malformed; every byte case is also '
+         'mutations and truncations, every value limit at the limit and one beyond (control blocks of 0/1/127/128|129 nodes, tap-tree depth 127/128|129, 256|257 '
+         'surjection inputs; thorough: witness-element, tx-output, input-map and value-size caps), valid encodings followed by 1..4 trailing bytes through both entry points, base64 text (valid and malformed; every byte case is also '
          'sent through from_str and must get the same verdict and value), ELIP-100/102 accessors; distinct = distinct (mode, bytes); non-trivial = the decoder '
          'accepted it',
  'trusted': ['secp256k1(-zkp) point / public key / x-only key validity are oracles (Section variables; theorems hold for '
